@@ -938,3 +938,68 @@ example : WFfixed { tQuantizedBits with bits := 6, intBits := 2, signed := true 
   ⟨rfl, by decide, rfl, rfl, rfl, rfl⟩
 
 end QKV.Props.C18
+
+/-! ## po2 activation → po2 kernel: the four max_value combinations (strengthening round, seed C18-8) -/
+namespace QKV.Props.C18
+open QKV QKV.Props.C16 QKV.Props.C17
+
+/-- the po2 × po2 multiplier (`Adder`): the product type has NO `max_value` cap as soon as ONE operand has
+    none, and the product of the two caps otherwise -/
+theorem C18_po2po2_cap_rule (w x : QRec) (hw : WFpo2 w) (hx : WFpo2 x) :
+    ∃ m, makeMultiplier w x = some (.adder, m) ∧ WFp2 m ∧
+      ((w.maxValPo2 = none ∨ x.maxValPo2 = none) → m.maxValPo2 = none) ∧
+      (∀ cw cx, w.maxValPo2 = some cw → x.maxValPo2 = some cx → m.maxValPo2 = some (cx * cw)) := by
+  refine ⟨mkAdder w x tPowerOfTwo, ?_, ?_, ?_, ?_⟩
+  · simp [makeMultiplier, hw.mode, hx.mode, mulTable, mkImpl, OutTemplate.toRec]
+  · rw [mkAdder_po2]
+    refine ⟨rfl, rfl, ?_⟩
+    simp only [imax_eq_max]
+    have := hw.nsb
+    have := le_max_right (x.bits - b2i x.signed) (w.bits - b2i w.signed)
+    omega
+  · rw [mkAdder_po2]
+    rintro (h | h) <;> simp [h, mulMaxVal]
+  · intro cw cx h1 h2
+    rw [mkAdder_po2]; simp [h1, h2, mulMaxVal]
+
+/-- PARTIAL (po2 activation → po2 kernel, no bias; all four max_value combinations): every pre-activation
+    `Σ wᵢ·xᵢ` of at most `prod(kernel_shape[:-1])` terms whose weights / inputs are values of the reported po2
+    types is a value of the reported accumulator, unless the sum reaches `2^(log_add_ops + max_exp)` —
+    the inherited finding C17-po2-top (all `2^k` products at the top power of two). -/
+theorem C18_preactivation_po2_po2_partial (kind : LayerKind) (x w : QRec) (shape : List ℕ)
+    (hw : WFpo2 w) (hx : WFpo2 x) (ws xs : List ℚ)
+    (hws : ∀ v ∈ ws, Val w v) (hxs : ∀ v ∈ xs, Val x v)
+    (hn : min ws.length xs.length ≤ kernelTerms (accShape kind shape)) :
+    ∃ lt, layerTypes kind x w none shape = some lt ∧ lt.multiplier.maxValPo2 = mulMaxVal x.maxValPo2 w.maxValPo2 ∧
+      (dot ws xs < pow2 (logAddOps (accShape kind shape) false + (getExp lt.multiplier).2) →
+        Val lt.accumulator (dot ws xs)) := by
+  obtain ⟨m, hm, hwf, _, _⟩ := C18_po2po2_cap_rule w x hw hx
+  have hmeq : m = mkAdder w x tPowerOfTwo := by
+    have : makeMultiplier w x = some (.adder, mkAdder w x tPowerOfTwo) := by
+      simp [makeMultiplier, hw.mode, hx.mode, mulTable, mkImpl, OutTemplate.toRec]
+    rw [this] at hm; simpa using hm.symm
+  set kacc := makeAccumulator (accShape kind shape) m false with hk
+  refine ⟨{ weight := w, bias := none, impl := .adder, multiplier := m, kernelAcc := kacc,
+            accumulator := kacc, fusedAccumulator := kacc }, ?_, ?_, ?_⟩
+  · simp [layerTypes, hm, accFor, biasAdd, hk]
+  · simp only; rw [hmeq, mkAdder_po2]
+  · intro htop
+    simp only at htop ⊢
+    have hmode : kacc.mode = 0 := by
+      simp [hk, makeAccumulator, hwf.nf, hwf.p, tQuantizedBits]
+    simp only [Val, hmode]
+    rw [dot_eq_sum] at htop ⊢
+    refine C17_acc_po2_partial (accShape kind shape) false m hwf _ ?_ ?_ htop
+    · intro p hp
+      obtain ⟨a, b, hab, rfl⟩ := mem_zipWith_mul hp
+      have hmem := List.of_mem_zip hab
+      obtain ⟨o, ho, hv⟩ := C16_po2_po2 w x hw hx a b (hws a hmem.1) (hxs b hmem.2)
+      rw [hm] at ho
+      have : o = m := by simpa using ho.symm
+      subst this
+      have hm1 : o.mode = 1 := by rw [hmeq]; exact mode_mkImpl .adder w x tPowerOfTwo
+      simpa [Val, hm1] using hv
+    · simp only [List.length_zipWith, Bool.false_eq_true, if_false, Nat.add_zero]
+      exact hn
+
+end QKV.Props.C18
